@@ -454,3 +454,31 @@ def r_progress(repo, tier):
     if n < 3:
         raise AnalysisError("R-PROGRESS: only %d cursor-driven while loops found" % n)
     return out
+
+
+def r_truthyio(repo, tier):
+    out = RuleOut(
+        "R-TRUTHYIO",
+        "the structure constructors of the format parsers guard their unpacking with `if data:` and are handed DataIO objects: DataIO "
+        "therefore stays always-true -- it defines neither __len__ nor __bool__ -- otherwise an empty input silently skips unpacking "
+        "and the parser fails later with AttributeError instead of its format error",
+    )
+    m = repo.mod(CORE)
+    c = m.classes.get("DataIO")
+    if c is None:
+        raise AnalysisError("R-TRUTHYIO: class DataIO vanished")
+    guards = 0
+    for mm in repo.modules.values():
+        if mm.rel.startswith("amoco/system/"):
+            for n in ast.walk(mm.tree):
+                if isinstance(n, ast.If) and isinstance(n.test, ast.Name) and n.test.id == "data":
+                    guards += 1
+    out.inst("DataIO", {"methods": sorted(c.methods), "truthiness_guards_on_data": guards})
+    for name in ("__len__", "__bool__"):
+        for k in repo.mro(c):
+            if name in k.methods:
+                f = k.methods[name]
+                out.report(f.file, f.dqual, "DataIO.%s" % name, f.node.lineno, "DataIO defines %s: an empty input makes `if data:` false in the %d structure constructors that guard their unpacking with it, so nothing is unpacked and the first field access raises AttributeError" % (name, guards))
+    if guards < 40:
+        raise AnalysisError("R-TRUTHYIO: only %d `if data:` guards found (anchor changed)" % guards)
+    return out
